@@ -247,7 +247,14 @@ def run(ctx, rep):
                     cut |= {(bi, x) for v, x in t['targets'] if v == 0}
                     if not any(v == 0 for v, _ in t['targets']):
                         cut.add((bi, t['otherwise']))
-        writes = [b for b, t in RM.calls() if (t.get('callee') or '').endswith('DirEntryData::serialize')]
+        # whatever writes to the device in remove() other than the chain release itself (the slot-deletion loop, inline
+        # or in a helper); the recursion into a sub-directory is judged in its own right
+        from rules.c13 import mutation_sites, wstar
+        gcache = ctx.cache.setdefault('guard_cache', {})
+        ws = ctx.cache.get('wstar')
+        if ws is None:
+            ws = ctx.cache['wstar'] = wstar(facts, gcache)
+        writes = [b for b in mutation_sites(facts, RM, ws, gcache) if b not in frees and RM.blocks[b]['term']['k'] == 'call']
         before = RM.reach_from([0], cut_edges=cut)
         ok = bool(frees) and bool(writes) and not [b for b in writes if b in before]
         rep.oblige('A5.8.remove', RM.name, ok=ok, nontrivial=True)
